@@ -135,7 +135,7 @@ func (u *Universe) MkCreate(label, status string) *ref.Op {
 	switch status {
 	case ref.DeltaMismatch:
 		// same suffix data, different delta
-		other := ref.Delta(u.U[0].Commitment(u.Code), []interface{}{patchAddServices(svcEntry("evil", "x", "https://evil.example"))})
+		other := ref.Delta(spec.Delta["updateCommitment"].(string), []interface{}{patchAddServices(svcEntry("evil", "x", "https://evil.example"))})
 		spec.DeltaHashOverride = ref.HashModel(u.Code, spec.Delta)
 		spec.Delta = other
 		patches = other["patches"].([]interface{})
@@ -156,6 +156,7 @@ type SignedOpts struct {
 	SignedSuffix          string
 	Origin                interface{}
 	OmitDelta             bool
+	RequestDelta          map[string]interface{}
 }
 
 func deltaFor(status string, next string, patches []interface{}) (map[string]interface{}, []interface{}) {
@@ -176,7 +177,7 @@ func (u *Universe) MkSigned(label, op string, reveal *ref.Key, nextR, nextU stri
 	}
 	s := &ref.SignedSpec{Op: op, Code: u.Code, Suffix: u.Suffix, RevealKey: reveal, SignedKey: o.SignedKey, SigningKey: o.SigningKey,
 		RecoveryCommitment: nextR, AnchorFrom: o.From, AnchorUntil: o.Until, SignedSuffix: o.SignedSuffix,
-		TamperSignature: o.Tamper, AlterPayload: o.Alter, AnchorOrigin: o.Origin, OmitDelta: o.OmitDelta}
+		TamperSignature: o.Tamper, AlterPayload: o.Alter, AnchorOrigin: o.Origin, OmitDelta: o.OmitDelta, DeltaInRequest: o.RequestDelta}
 	var usedPatches []interface{}
 	if op != "deactivate" {
 		s.Delta, usedPatches = deltaFor(status, nextU, patches)
@@ -248,6 +249,8 @@ func (u *Universe) BuildAlphabet(winFrom, winUntil int64) {
 	add(u.MkSigned("d1", "deactivate", u.R[1], "", "", nil, SignedOpts{}))
 	add(u.MkSigned("dW", "deactivate", u.R[0], "", "", nil, SignedOpts{From: winFrom, Until: winUntil}))
 	add(u.MkSigned("dS", "deactivate", u.R[0], "", "", nil, SignedOpts{SigningKey: u.X[0]}))
+	add(u.MkSigned("dR", "deactivate", u.R[0], "", "", nil, SignedOpts{SignedKey: u.X[0], SigningKey: u.X[0]}))
+	add(u.MkSigned("rR", "recover", u.R[0], cm(u.R[1]), cm(u.U[1]), d1, SignedOpts{SignedKey: u.X[1], SigningKey: u.X[1]}))
 	add(u.MkSigned("dO", "deactivate", u.R[0], "", "", nil, SignedOpts{SignedSuffix: "EiOtherSuffixxxxxxxxxxxxxxxxxxxxxxxxxxxxxxxxxxx"}))
 }
 
@@ -392,4 +395,172 @@ func sortedCopy(s []string) []string {
 	c := append([]string{}, s...)
 	sort.Strings(c)
 	return c
+}
+
+// ---------------------------------------------------------------------------------------------
+// Chain: a legitimate commitment chain built step by step with fresh keys, plus forgeries and forks.
+
+// Chain builds legitimate histories.
+type Chain struct {
+	U        *Universe
+	rng      *hx.Rng
+	types    []string
+	CurU     *ref.Key
+	CurR     *ref.Key
+	AllU     []*ref.Key
+	AllR     []*ref.Key
+	Legit    []*ref.Op
+	nkeys    int
+	Deact    bool
+	DocCount int
+}
+
+func (c *Chain) newKey(prefix string) *ref.Key {
+	c.nkeys++
+	return ref.NewKey(hx.Pick(c.rng, c.types), fmt.Sprintf("%s%d", prefix, c.nkeys), c.rng.Bytes(32))
+}
+
+// NewChain creates the chain with its create operation.
+func NewChain(rng *hx.Rng, code uint64, p protocol.Protocol, types []string) *Chain {
+	c := &Chain{rng: rng, types: types}
+	u := &Universe{Code: code, MaxDelta: int64(p.MaxOperationTimeDelta), Ops: map[string]*ref.Op{}, Proto: p}
+	c.U = u
+	c.CurR, c.CurU = c.newKey("R"), c.newKey("U")
+	c.AllR, c.AllU = []*ref.Key{c.CurR}, []*ref.Key{c.CurU}
+	x := c.newKey("D")
+	d0 := []interface{}{
+		patchAddKeys(pubKeyEntry("k1", x, "authentication")),
+		patchAddServices(svcEntry("s1", "hub", "https://example.com/hub")),
+	}
+	u.Create = &ref.CreateSpec{Code: code, RecoveryCommitment: c.CurR.Commitment(code),
+		Delta: ref.Delta(c.CurU.Commitment(code), d0), AnchorOrigin: "origin-create"}
+	u.Suffix = u.Create.Suffix()
+	u.X = []*ref.Key{x}
+	c.Legit = append(c.Legit, u.MkCreate("L0:create", ref.DeltaOK))
+	return c
+}
+
+func (c *Chain) nextPatches() []interface{} {
+	c.DocCount++
+	n := c.DocCount
+	switch c.rng.Intn(3) {
+	case 0:
+		return []interface{}{patchAddKeys(pubKeyEntry(fmt.Sprintf("k%d", n+1), c.U.X[0], "assertionMethod"))}
+	case 1:
+		return []interface{}{patchAddServices(svcEntry(fmt.Sprintf("s%d", n+1), "web", fmt.Sprintf("https://example.com/%d", n)))}
+	default:
+		return []interface{}{patchJSON(map[string]interface{}{"op": "add", "path": fmt.Sprintf("/m%d", n), "value": float64(n)})}
+	}
+}
+
+// Step appends a legitimate operation: kind = update | recover | deactivate.
+func (c *Chain) Step(kind string) *ref.Op {
+	code := c.U.Code
+	label := fmt.Sprintf("L%d:%s", len(c.Legit), kind)
+	var op *ref.Op
+	switch kind {
+	case "update":
+		nk := c.newKey("U")
+		op = c.U.MkSigned(label, "update", c.CurU, "", nk.Commitment(code), c.nextPatches(), SignedOpts{})
+		c.CurU = nk
+		c.AllU = append(c.AllU, nk)
+	case "recover":
+		nr, nu := c.newKey("R"), c.newKey("U")
+		c.DocCount++
+		doc := []interface{}{patchAddKeys(pubKeyEntry(fmt.Sprintf("rk%d", c.DocCount), c.U.X[0], "authentication")),
+			patchAddServices(svcEntry(fmt.Sprintf("rs%d", c.DocCount), "rec", "https://example.com/recovered"))}
+		op = c.U.MkSigned(label, "recover", c.CurR, nr.Commitment(code), nu.Commitment(code), doc, SignedOpts{Origin: fmt.Sprintf("origin-%d", c.DocCount)})
+		c.CurR, c.CurU = nr, nu
+		c.AllR, c.AllU = append(c.AllR, nr), append(c.AllU, nu)
+	case "deactivate":
+		op = c.U.MkSigned(label, "deactivate", c.CurR, "", "", nil, SignedOpts{})
+		c.Deact = true
+	}
+	c.Legit = append(c.Legit, op)
+	return op
+}
+
+// Forgeries returns unauthorised operations aimed at the commitments currently in force.
+// Every returned op fails the authorisation test of C01 by construction.
+func (c *Chain) Forgeries(tag string) []*ref.Op {
+	code := c.U.Code
+	x, y := c.newKey("X"), c.newKey("X")
+	k2 := []interface{}{patchAddServices(svcEntry("evil", "evil", "https://evil.example"))}
+	swapNext := func(field string, val string) func(map[string]interface{}) {
+		return func(p map[string]interface{}) { p[field] = val }
+	}
+	evil := ref.Delta(y.Commitment(code), []interface{}{patchAddServices(svcEntry("evil2", "evil", "https://evil2.example"))})
+	evilDelta := ref.HashModel(code, evil)
+	var out []*ref.Op
+	add := func(o *ref.Op) { out = append(out, o) }
+	lb := func(s string) string { return "F" + tag + ":" + s }
+	// (a) valid operations of a stranger key
+	add(c.U.MkSigned(lb("a-upd-stranger"), "update", x, "", y.Commitment(code), k2, SignedOpts{}))
+	add(c.U.MkSigned(lb("a-rec-stranger"), "recover", x, y.Commitment(code), x.Commitment(code), k2, SignedOpts{}))
+	add(c.U.MkSigned(lb("a-deact-stranger"), "deactivate", x, "", "", nil, SignedOpts{}))
+	// (b) right key revealed, signature by another key / tampered signature
+	add(c.U.MkSigned(lb("b-upd-wrongsigner"), "update", c.CurU, "", y.Commitment(code), k2, SignedOpts{SigningKey: x}))
+	add(c.U.MkSigned(lb("b-upd-tampered"), "update", c.CurU, "", y.Commitment(code), k2, SignedOpts{Tamper: true}))
+	add(c.U.MkSigned(lb("b-rec-wrongsigner"), "recover", c.CurR, y.Commitment(code), x.Commitment(code), k2, SignedOpts{SigningKey: x}))
+	add(c.U.MkSigned(lb("b-rec-tampered"), "recover", c.CurR, y.Commitment(code), x.Commitment(code), k2, SignedOpts{Tamper: true}))
+	add(c.U.MkSigned(lb("b-deact-wrongsigner"), "deactivate", c.CurR, "", "", nil, SignedOpts{SigningKey: x}))
+	add(c.U.MkSigned(lb("b-deact-tampered"), "deactivate", c.CurR, "", "", nil, SignedOpts{Tamper: true}))
+	// (c) signed payload altered after signing
+	add(c.U.MkSigned(lb("c-upd-altered-deltahash"), "update", c.CurU, "", y.Commitment(code), k2, SignedOpts{Alter: swapNext("deltaHash", evilDelta), RequestDelta: evil}))
+	add(c.U.MkSigned(lb("c-rec-altered-commitment"), "recover", c.CurR, x.Commitment(code), x.Commitment(code), k2, SignedOpts{Alter: swapNext("recoveryCommitment", y.Commitment(code))}))
+	add(c.U.MkSigned(lb("c-deact-altered-window"), "deactivate", c.CurR, "", "", nil, SignedOpts{From: 5, Until: 6, Alter: func(p map[string]interface{}) { delete(p, "anchorFrom"); delete(p, "anchorUntil") }}))
+	// (d) reveal value of the committed key, signed data and signature of the attacker's key
+	add(c.U.MkSigned(lb("d-upd-reveal-mismatch"), "update", c.CurU, "", y.Commitment(code), k2, SignedOpts{SignedKey: x, SigningKey: x}))
+	add(c.U.MkSigned(lb("d-rec-reveal-mismatch"), "recover", c.CurR, y.Commitment(code), x.Commitment(code), k2, SignedOpts{SignedKey: x, SigningKey: x}))
+	add(c.U.MkSigned(lb("d-deact-reveal-mismatch"), "deactivate", c.CurR, "", "", nil, SignedOpts{SignedKey: x, SigningKey: x}))
+	// deactivate whose signed suffix belongs to another DID
+	add(c.U.MkSigned(lb("d-deact-other-suffix"), "deactivate", c.CurR, "", "", nil, SignedOpts{SignedSuffix: "EiBotherDidSuffixxxxxxxxxxxxxxxxxxxxxxxxxxxxxxx"}))
+	// update whose delta does not match the signed delta hash (tampered delta)
+	add(c.U.MkSigned(lb("c-upd-delta-swapped"), "update", c.CurU, "", y.Commitment(code), k2, SignedOpts{DeltaStatus: ref.DeltaMismatch}))
+	return out
+}
+
+// DupCreates returns further create operations for the same DID (same suffix data; same or different delta).
+func (c *Chain) DupCreates(tag string) []*ref.Op {
+	return []*ref.Op{c.U.MkCreate("F"+tag+":e-create-same", ref.DeltaOK), c.U.MkCreate("F"+tag+":e-create-other-delta", ref.DeltaMismatch)}
+}
+
+// RandomChain builds create + n random steps (optionally ending with deactivate).
+func RandomChain(rng *hx.Rng, code uint64, p protocol.Protocol, types []string, n int, endDeactivate bool) *Chain {
+	c := NewChain(rng, code, p, types)
+	for i := 0; i < n; i++ {
+		if rng.Chance(1, 4) {
+			c.Step("recover")
+		} else {
+			c.Step("update")
+		}
+	}
+	if endDeactivate {
+		c.Step("deactivate")
+	}
+	return c
+}
+
+// coordAlloc hands out distinct (time, number) pairs.
+type coordAlloc struct {
+	used map[[2]uint64]bool
+	n    int
+}
+
+func (a *coordAlloc) take(r *hx.Rng, tLo, tHi uint64) (uint64, uint64, string) {
+	if a.used == nil {
+		a.used = map[[2]uint64]bool{}
+	}
+	for {
+		t := tLo
+		if tHi > tLo {
+			t += uint64(r.Intn(int(tHi - tLo + 1)))
+		}
+		num := uint64(r.Intn(6))
+		if !a.used[[2]uint64{t, num}] {
+			a.used[[2]uint64{t, num}] = true
+			a.n++
+			return t, num, fmt.Sprintf("ref%d", a.n)
+		}
+	}
 }
